@@ -30,9 +30,107 @@ CHECK_DEADLOCK FALSE
     ctx.mc("Lossy", None, cfg_text=cfg, workers=vf.NCPU, timeout=1800)
 
 
+ST_MC = """SPECIFICATION Spec
+CONSTANTS
+  Writers = %s
+  Limit = 5
+  MaxTime = %d
+  TimerFromStart = %s
+  LeakOnTimeout = %s
+VIEW ViewNoHist
+INVARIANTS TypeOK NoHang ErrorOnlyAfterOwnLimit SerOnlyWhilePublishing WaitIsForAPublication NothingDropped
+CHECK_DEADLOCK FALSE
+"""
+ST_GEN = """SPECIFICATION SpecGen
+CONSTANTS
+  Writers = {1, 2, 3}
+  Limit = 5
+  MaxTime = 12
+  TimerFromStart = FALSE
+  LeakOnTimeout = FALSE
+INVARIANT EmitCase
+CHECK_DEADLOCK FALSE
+"""
+
+
+def timed_cases(ctx, thorough):
+    """spec/SendTimeout.tla: model-check the timed write path, show that the two named deviations break it, and pick
+    behaviours to replay in real time (a Tick is a second: a behaviour lasts up to ~13 s, they run side by side)."""
+    ctx.mc("SendTimeout", None, cfg_text=ST_MC % ("{1, 2, 3}", 12 if thorough else 8, "FALSE", "FALSE"),
+           workers=vf.NCPU, timeout=1800)
+    for dev, inv in (("TRUE", "FALSE"), ("FALSE", "TRUE")):
+        r = ctx.tlc("SendTimeout", None, cfg_text=ST_MC % ("{1, 2, 3}", 12, dev, inv), workers=4, timeout=600)
+        if not r.violated:
+            raise vf.Inconclusive("SendTimeout.tla: deviation TimerFromStart=%s LeakOnTimeout=%s is not rejected" % (dev, inv))
+    ctx.cov["notes"].append({"SendTimeout_deviations_rejected_by_TLC": ["TimerFromStart", "LeakOnTimeout"]})
+    r = ctx.tlc("SendTimeout", None, cfg_text=ST_GEN, workers=1, timeout=900,
+                simulate="num=%d" % (30000 if thorough else 6000), extra=["-depth", "70"])
+    cases, seen = [], set()
+    for c in r.cases():
+        k = repr(c["sched"])
+        if k not in seen:
+            seen.add(k)
+            cases.append(c)
+
+    def shape(c):
+        acts = [s["a"] for s in c["sched"]]
+        to = [i for i, a in enumerate(acts) if a == "Timeout"]
+        return (len(to),                                             # how many sends timed out
+                bool(to) and "Begin" in acts[to[0]:],                # a write begins after a timeout
+                bool(to) and "TakeSer" in acts[to[0]:],              # a write queued behind one that timed out
+                any(acts[i] == "Begin" and "Tick" in acts[i:j] for i in range(len(acts)) for j in range(i, len(acts))
+                    if acts[j] == "TakeSer" and c["sched"][j]["p"] == c["sched"][i]["p"] and acts[i] == "Begin"),
+                "CancelReader" in acts, acts.count("Recv") > 1)
+    rnd = random.Random(ctx.seed + 11)
+    rnd.shuffle(cases)
+    by = {}
+    for c in cases:
+        by.setdefault(shape(c), []).append(c)
+    per = 12 if thorough else 3
+    chosen = [c for k in sorted(by) for c in by[k][:per]]
+    ctx.cov["timed_behaviour_shapes"] = len(by)
+    if len(chosen) < 10 or not any(shape(c)[0] for c in chosen):
+        raise vf.Inconclusive("only %d timed behaviours (%d shapes) generated" % (len(chosen), len(by)))
+    return chosen
+
+
+def timed_check(ctx, cases, proc, opath):
+    out, _ = proc.communicate(timeout=600)
+    if proc.returncode != 0:
+        raise vf.Inconclusive("timed replay failed rc=%d:\n%s" % (proc.returncode, out[-3000:]))
+    obs = ctx.read_ndjson(opath)
+    if len(obs) != len(cases):
+        raise vf.Inconclusive("%d timed observations for %d behaviours" % (len(obs), len(cases)))
+    tr = ctx.tlc("SendTimeoutTrace", "SendTimeoutTrace.cfg", workers=1, files={"obs.ndjson": opath}, timeout=900)
+    if not any(l.startswith('"CHECKED %d"' % len(obs)) for l in tr.out.splitlines()):
+        raise vf.Inconclusive("timed trace check did not cover all %d runs:\n%s" % (len(obs), tr.out[-3000:]))
+    ctx.count(len(obs))
+    ctx.cov["traces_validated_against_impl"] += len(obs)
+    ctx.cov["timed_behaviours_replayed"] = len(obs)
+    for b in tr.cases("BAD "):
+        o = obs[b["line"] - 1]
+        acts = [s["a"] for s in o["sched"]]
+        cls = "after-a-timeout" if "Timeout" in acts else ("queued" if acts.count("Begin") > 1 else "single")
+        for clause in b["fails"]:
+            name = clause.split(":", 1)[1]
+            ctx.violation("C09/val/timed/%s/%s" % (name, cls),
+                          "timed run %d: clause '%s' false on what the real code did" % (o["n"], name), o)
+    for o in obs:
+        ctx.distinct(("timed", o["sched"]))
+    ctx.sample(obs[0])
+
+
 def run(ctx):
     thorough = ctx.tier == "thorough"
     rnd = random.Random(ctx.seed)
+    import subprocess
+    tcases = timed_cases(ctx, thorough)
+    for n, c in enumerate(tcases):
+        c["n"] = n + 1
+    tpath = ctx.write_ndjson("tcases.ndjson", tcases)
+    topath = ctx.path("tobs.ndjson")
+    tproc = subprocess.Popen([ctx.harness(cmd="lossy"), "-tscript", tpath, "-out", topath], cwd=ctx.scratch,
+                             env=dict(vf.GOENV), stdout=subprocess.PIPE, stderr=subprocess.STDOUT, text=True)
     mc(ctx, "coll", "{1, 2}", 8 if thorough else 7)
     mc(ctx, "coll", "{1, 2, 3}", 7 if thorough else 5)
     mc(ctx, "val", "{1}", 8)
@@ -117,6 +215,7 @@ def run(ctx):
             ctx.distinct((o["kind"], o["mode"], o["steps"]))
     for o in obs[:1] + obs[len(obs) // 2: len(obs) // 2 + 1] + obs[-1:]:
         ctx.sample(o)
+    timed_check(ctx, tcases, tproc, topath)
     ctx.cov["rule"] = ("behaviours of spec/Lossy.tla enumerated by TLC: every API-legal change sequence over 2 ids up to "
                        "5 (quick) / 6 (thorough) changes x every placement of consumer receives, plus simulated longer "
                        "ones over 2-3 ids; each replayed on the real stage (rendezvous makes the receive pattern exact) "
